@@ -3,16 +3,15 @@ from vlib import matches
 
 # Scenario classes (vacuity guard).  The model tags every vector with all scenarios it exhibits (`cls`,
 # computed by the specification from its own resolution: who lost, what was discarded, where a version
-# came from ...); a vector is counted under ONE of its tags: one that has not been counted yet if there is
-# such a tag, else its first.  So a class count > 0 means: TLC explored a case exhibiting the scenario and it
+# came from ...); a vector is counted under ONE of its tags: the one counted least so far (so a tag is counted
+# the first time it occurs).  So a class count > 0 means: TLC explored a case exhibiting the scenario and it
 # went through the implementation.
 _seen = {}
 
 
 def c19_class(r):
     tags = sorted(r.get("cls") or []) or [r.get("op", "?")]
-    new = [t for t in tags if _seen.get(t, 0) == 0]
-    t = new[0] if new else tags[0]
+    t = min(tags, key=lambda x: (_seen.get(x, 0), x))
     _seen[t] = _seen.get(t, 0) + 1
     return t
 
